@@ -21,6 +21,18 @@ from typing import Iterable, Iterator
 PKG = "acryo"
 
 
+def _type_checking_split(st: ast.If):
+    """(stub body, run-time body) of ``if TYPE_CHECKING: stubs else: runtime`` or its negated form; None otherwise."""
+    if not st.orelse:
+        return None
+    t = st.test
+    if dotted(t) in ("TYPE_CHECKING", "typing.TYPE_CHECKING"):
+        return st.body, st.orelse
+    if isinstance(t, ast.UnaryOp) and isinstance(t.op, ast.Not) and dotted(t.operand) in ("TYPE_CHECKING", "typing.TYPE_CHECKING"):
+        return st.orelse, st.body
+    return None
+
+
 class AnalysisError(Exception):
     """The analysis cannot decide (vanished anchor, parse failure, floor not met...)."""
 
@@ -341,8 +353,10 @@ class Model:
                         mod.classes[st.name] = ci
                         self.all_classes.append(ci)
                         visit_body(st.body, ci, None)
-                elif isinstance(st, ast.If) and dotted(st.test) in ("TYPE_CHECKING", "typing.TYPE_CHECKING") and st.orelse:
-                    # typing stubs shadowed at run time by the else-branch: only the run-time definitions count
+                elif isinstance(st, ast.If) and _type_checking_split(st) is not None:
+                    # typing stubs shadowed at run time by the other branch: only the run-time definitions count
+                    stubs, rt_body = _type_checking_split(st)
+                    st = ast.If(test=st.test, body=stubs, orelse=rt_body)
                     runtime = set()
                     for x in st.orelse:
                         if isinstance(x, (ast.Import, ast.ImportFrom)):
